@@ -540,6 +540,64 @@ def gen_C05(rng):
     return ctx.text()
 
 
+def gen_C05_neutral(rng):
+    """neutral and absorbing elements met through the shortcuts of the arithmetic
+    templates, with the operands in relation forests of DIFFERENT reduction rules:
+    an identity-reduced operand made of identity blocks / constants with the
+    values 0 and 1, a fully- or quasi-reduced operand that is non-zero off the
+    diagonal, both operand orders, every result rule"""
+    ctx = Ctx(rng)
+    ctx.emit("init " + rand_ctopts(rng))
+    d = rand_domain(rng, "D", True, 200, 3)
+    ctx.emit(d.decl())
+    ctx.doms.append(d)
+    rg = rng.choice(["int", "int", "real"])
+    one = "64" if rg == "real" else "1"
+    fi = Forest("FI", d, True, rg, "mt", "ir", rand_opts(rng))
+    fo = Forest("FO", d, True, rg, "mt", rng.choice(["fr", "qr"]), rand_opts(rng))
+    fr = Forest("FR", d, True, rg, "mt", rng.choice(RULES_REL), rand_opts(rng))
+    for f in (fi, fo, fr):
+        ctx.emit(f.decl())
+        ctx.forests.append(f)
+    # neutral-ish operands in the identity-reduced forest
+    neutral = []
+    for i in range(rng.randint(1, 3)):
+        nm = "I%d" % i
+        r = rng.random()
+        if r < 0.4:
+            # identity blocks with value exactly 1 (or 0/1 mixed)
+            parts = ["coll", nm, "FI", "max", "0"]
+            for _ in range(rng.choice([1, 1, 2])):
+                pos = []
+                for sz in d.sizes:
+                    pos += rng.choice([["x", "="], ["x", "="], [str(rng.randrange(sz)), "="], ["x", "x"]])
+                parts += [";"] + pos + ["=>", one]
+            ctx.emit(" ".join(parts))
+        elif r < 0.7:
+            ctx.emit("const %s FI %s" % (nm, rng.choice([one, one, "0"])))
+        else:
+            gen_identityish(ctx, fi, nm)
+        ctx.edges[nm] = fi
+        neutral.append(nm)
+    others = []
+    for i in range(rng.randint(1, 3)):
+        nm = "O%d" % i
+        gen_coll(ctx, fo, nm, nmax=4)
+        others.append(nm)
+    ops = ["mult", "mult", "plus", "max", "min", "minus"] if rg == "int" else ["plus", "max", "min", "minus"]
+    for _ in range(rng.randint(4, 10)):
+        a, b = rng.choice(neutral), rng.choice(others)
+        if rng.random() < 0.5:
+            a, b = b, a
+        n = ctx.fresh()
+        tgt = rng.choice([fi, fo, fr])
+        ctx.emit("apply %s %s %s %s %s" % (n, tgt.name, rng.choice(ops), a, b))
+        ctx.edges[n] = tgt
+        if rng.random() < 0.3:
+            (others if tgt is not fi else neutral).append(n)
+    return ctx.text()
+
+
 def gen_C10(rng):
     ctx = Ctx(rng)
     rel = rng.random() < 0.5
@@ -869,6 +927,61 @@ def gen_C18(rng, nops=400):
     L.append("mm check M")
     L.append("mm del M")
     return "\n".join(L) + "\n"
+
+
+def gen_recycle_cached(rng):
+    """handle recycling against compute-table entries: a cached result whose nodes are the
+    newest handles, a still newer uncached function, both dropped (the handle array is
+    trimmed over deleted-but-cached handles), unrelated new functions (handle reuse), and
+    the same operation again; pessimistic deletion most of the time"""
+    ctx = Ctx(rng)
+    ctx.emit("init " + rand_ctopts(rng))
+    rel = rng.random() < 0.25
+    d = rand_domain(rng, "D", rel, 150, 3)
+    ctx.emit(d.decl())
+    ctx.doms.append(d)
+    rg = rng.choice(["bool", "int", "int"])
+    opts = "del=" + rng.choice(["pess", "pess", "pess", "opt", "never"])
+    if rng.random() < 0.5:
+        opts += " storage=" + rng.choice(STOR)
+    if rng.random() < 0.5:
+        opts += " mm=" + rng.choice(MMS)
+    f = Forest("F", d, rel, rg, "mt", rng.choice(RULES_REL if rel else RULES_SET), opts)
+    ctx.emit(f.decl())
+    ctx.forests.append(f)
+    ops = SETOPS if rg == "bool" else ["plus", "max", "min"]
+    a = gen_coll(ctx, f, "A", nmax=5)
+    b = gen_coll(ctx, f, "B", nmax=5)
+    for rnd in range(rng.randint(2, 5)):
+        op = rng.choice(ops)
+        ctx.emit("apply R%d F %s A B" % (rnd, op))
+        ctx.edges["R%d" % rnd] = f
+        # something newer than the result, not in any compute table
+        y = gen_leaf(ctx, f, "Y%d" % rnd)
+        order = ["R%d" % rnd, "Y%d" % rnd]
+        if rng.random() < 0.3:
+            order.reverse()
+        for e in order:
+            ctx.emit("release %s" % e)
+            ctx.edges.pop(e, None)
+        # unrelated new functions take the freed handles
+        for i in range(rng.randint(1, 6)):
+            gen_leaf(ctx, f, "N%d_%d" % (rnd, i))
+        ctx.emit("apply S%d F %s A B" % (rnd, op))
+        ctx.edges["S%d" % rnd] = f
+        ctx.emit("show A")
+        ctx.emit("show B")
+        ctx.emit("audit F")
+        if rng.random() < 0.5:
+            for i in range(6):
+                nm = "N%d_%d" % (rnd, i)
+                if nm in ctx.edges and rng.random() < 0.7:
+                    ctx.emit("release %s" % nm)
+                    ctx.edges.pop(nm)
+        if rng.random() < 0.3:
+            # replace an operand: entries for the old one go stale
+            gen_coll(ctx, f, "B", nmax=5)
+    return ctx.text()
 
 
 def gen_C06_nodes(rng, nops=None):
